@@ -201,7 +201,20 @@ func (r *runner) runRace(f lib.Flags, n int) {
 	bin := filepath.Join(work, "c16_racewl")
 	env := append(os.Environ(), "CGO_ENABLED=1", "GOFLAGS=-mod=mod", "GOPROXY=off", "GOSUMDB=off", "GOTOOLCHAIN=local")
 	t0 := time.Now()
-	cmd := exec.Command("go", "build", "-race", "-tags", "verif unit", "-o", bin, "./cmd/c16/racewl")
+	args := []string{"build", "-race", "-tags", "verif unit", "-o", bin}
+	if repo := os.Getenv("VERIF_REPO"); repo != "" && repo != "/repo" {
+		// bin/check runs against a scratch copy of the repository: build the race workload against it too
+		md := filepath.Join(work, "c16_race_modfile")
+		gm, err1 := os.ReadFile(filepath.Join(verif, "harness", "go.mod"))
+		gs, err2 := os.ReadFile(filepath.Join(repo, "go.sum"))
+		if err1 == nil && err2 == nil && os.MkdirAll(md, 0o755) == nil {
+			os.WriteFile(filepath.Join(md, "go.mod"), []byte(strings.ReplaceAll(string(gm), "=> /repo", "=> "+repo)), 0o644)
+			os.WriteFile(filepath.Join(md, "go.sum"), gs, 0o644)
+			args = append(args, "-modfile", filepath.Join(md, "go.mod"))
+		}
+	}
+	args = append(args, "./cmd/c16/racewl")
+	cmd := exec.Command("go", args...)
 	cmd.Dir = filepath.Join(verif, "harness")
 	cmd.Env = env
 	if out, err := cmd.CombinedOutput(); err != nil {
